@@ -221,3 +221,11 @@ func init() {
 		}
 	}
 }
+
+func init() {
+	debugHooks["join"] = func(e *Engine) {
+		for _, j := range castJoinJobs(e) {
+			fmt.Printf("%-8s %s :: %s\n", j.O.Status, j.O.Name, j.O.Detail)
+		}
+	}
+}
